@@ -119,7 +119,8 @@ Connect(s) ==
   /\ UNCHANGED <<agreement, accts, chats, bans>>
 
 LoginName(s) == IF s.login = "" THEN "guest" ELSE s.login
-PwMatches(s) == LoginName(s) \in DOMAIN accts /\ accts[LoginName(s)].pw = s.pw
+PwMatches(s) == IF "matches" \in DOMAIN s THEN s.matches   \* computed by the harness with bcrypt from the account file
+                ELSE LoginName(s) \in DOMAIN accts /\ accts[LoginName(s)].pw = s.pw
 
 (* Login: first transaction on an open connection.  s.flow = "old" carries name+icon (1.2.3 clients). *)
 Login(s) ==
@@ -261,9 +262,15 @@ Subject(s) ==
   /\ UNCHANGED <<agreement, accts, conn, bans>>
 
 (* ---- private message, broadcast, info ------------------------------------ *)
-(* s.targetLive = FALSE models a user ID nobody holds: nothing happens, not even a reply. *)
+(* Requests address a user by ID.  The script names a connection slot; the request carries the ID that slot was
+   given at login, and it reaches whoever holds that ID now (IDs of departed users are handed out again). *)
+Holder(t) == IF \E d \in Live : conn[d].id = conn[t].id
+               THEN CHOOSE d \in Live : conn[d].id = conn[t].id
+               ELSE t
+
+(* a user ID nobody holds: nothing happens, not even a reply. *)
 SendPM(s) ==
-  LET c == s.c  tg == s.target IN
+  LET c == s.c  tg == Holder(s.target) IN
   /\ conn[c].ph = "in"
   /\ IF ~Has(c, PSendPM) THEN out' = << ErrReply(c) >>
      ELSE IF conn[tg].ph # "in" THEN out' = <<>>
@@ -287,7 +294,7 @@ Broadcast(s) ==
   /\ UNCHANGED <<agreement, accts, conn, chats, bans>>
 
 GetInfo(s) ==
-  LET c == s.c  tg == s.target IN
+  LET c == s.c  tg == Holder(s.target) IN
   /\ conn[c].ph = "in"
   /\ IF ~Has(c, PGetInfo) THEN out' = << ErrReply(c) >>
      ELSE IF conn[tg].ph # "in" THEN out' = << ErrReply(c) >>
@@ -348,6 +355,23 @@ Wait(s) ==
   /\ out' = <<>>
   /\ UNCHANGED <<agreement, accts, conn, chats>>
 
+(* Churn: n connections come and go (each takes a user ID from the registry's counter and releases it). *)
+Churn(s) ==
+  /\ out' = <<>>
+  /\ UNCHANGED <<agreement, accts, conn, chats, bans>>
+
+(* A connection that does not get in: a bad handshake (nothing is answered, the connection is dropped), or a valid
+   handshake followed by a first transaction without valid credentials (one error reply), whatever transactions
+   the peer appends after it.  Nothing else may happen (C04 PreLoginSilence). *)
+HsValid(s) == s.hs = "ok"
+RawFail(s) ==
+  LET c == s.c IN
+  /\ conn[c].ph = "free"
+  /\ ~(HsValid(s) /\ s.matches)
+  /\ conn' = [conn EXCEPT ![c] = [FreeConn EXCEPT !.ph = "closed", !.addr = s.addr]]
+  /\ out' = IF HsValid(s) /\ s.sentFirst THEN << ErrReply(c) >> ELSE <<>>
+  /\ UNCHANGED <<agreement, accts, chats, bans>>
+
 (* One planted ban has expired in real time (reported by the harness from its own clock). *)
 Expire(s) ==
   /\ bans' = [a \in DOMAIN bans |-> IF a = s.addr /\ bans[a] = "soon" THEN "past" ELSE bans[a]]
@@ -373,7 +397,8 @@ Guard(s) ==
     [] s.op \in {"reject", "join", "leave", "subject"} -> InP(s.c) /\ s.chat \in DOMAIN chats
     [] s.op \in {"pm", "getinfo"} -> InP(s.c) /\ s.target \in Conns
     [] s.op = "kick"      -> InP(s.c) /\ InP(s.target) /\ s.c # s.target
-    [] s.op \in {"banadd", "wait", "expire", "restart"} -> TRUE
+    [] s.op \in {"banadd", "wait", "expire", "restart", "churn", "idle"} -> TRUE
+    [] s.op = "rawfail"   -> s.c \in Conns /\ conn[s.c].ph = "free" /\ ~Refused(s.addr) /\ ~(HsValid(s) /\ s.matches)
     [] OTHER -> FALSE
 
 Apply(s) ==
@@ -398,6 +423,9 @@ Apply(s) ==
     [] s.op = "banadd"    -> BanAdd(s)
     [] s.op = "wait"      -> Wait(s)
     [] s.op = "expire"    -> Expire(s)
+    [] s.op = "churn"     -> Churn(s)
+    [] s.op = "idle"      -> Churn(s)
+    [] s.op = "rawfail"   -> RawFail(s)
     [] s.op = "restart"   -> Restart(s)
 
 (* ---- properties ---------------------------------------------------------- *)
